@@ -399,7 +399,7 @@ def c12a(ctx, tu):
     la.propagate()
     # entry points seen unlocked
     reached_u = set(tu.fns[f].qe for (f, c) in la.reached if c == "U")
-    if tu.name.startswith("core") or tu.name.startswith("repo_ct"):
+    if tu.name.startswith("core"):
         for r in REQUIRED_ENTRIES:
             if r not in reached_u:
                 ctx.ob("C12.a", r, None, unit=tu.name,
@@ -564,6 +564,9 @@ def c12e(ctx, tu, la):
                             covered = True
                         if k == "dtor" and e.get("kind") == "member" and e.get("field") in det:
                             covered = True
+                        if k == "dtor" and e.get("kind") == "member" and \
+                                classify_field(e.get("field", "")) == "publish-immutable":
+                            covered = True   # clause objects owned by this expectation only (C12.f)
                         if not covered:
                             for tid in tu.targets(e):
                                 tf = tu.fns[tid]
